@@ -153,7 +153,7 @@ def doc_of(lines, sep, spacing=0):
             body = " ".join(words) + (" " if spacing == 2 else "")
         out.append(tc(t, sep_for(sep, li)) + "\t" + body)
         out.append("")
-    return "\n".join(out)
+    return ("\r\n" if spacing == 3 else "\n").join(out)  # spacing 3: CR LF line ends
 
 
 def evaluate(case):
@@ -278,7 +278,7 @@ def run_shard(d):
             for b1 in bset:
                 for b2 in bset:
                     for final in fset:
-                      for tworows, spacing in (((False, 0), (True, 0)) + (((False, 1), (False, 2)) if fillers == fill_sets[1] and offset == offsets_for(base)[0] else ()) if fillers in fill_sets[:2] else ((False, 0),)):
+                      for tworows, spacing in (((False, 0), (True, 0)) + (((False, 1), (False, 2), (False, 3)) if fillers == fill_sets[1] and offset == offsets_for(base)[0] else ()) if fillers in fill_sets[:2] else ((False, 0),)):
                         case = (base, d["sep"], d["doubled"], fillers, b1, b2, final, offset, tworows, spacing)
                         v, states, trans, outcome = evaluate(case)
                         allstates.update(states)
@@ -289,7 +289,7 @@ def run_shard(d):
                         acc.traces += 1
                         acc.case(case, True, outcome, {"base_timecode": base, "separator": d["sep"], "doubled": d["doubled"], "filler_words": fillers, "boundaries": [b1, b2], "final": final, "offset_s": offset, "two_non_adjacent_rows_per_caption": tworows, "blank_spacing_variant": spacing})
                         for sig, det in v:
-                            acc.violation(sig + ("/two-rows" if tworows else "") + ("/extra-blanks-between-code-words" if spacing else ""), {"case": list(case)}, det)
+                            acc.violation(sig + ("/two-rows" if tworows else "") + (("/crlf-line-ends" if spacing == 3 else "/extra-blanks-between-code-words") if spacing else ""), {"case": list(case)}, det)
     res = acc.result()
     res["extra"] = {"state_hashes": sorted(allstates)}
     return res
@@ -311,4 +311,4 @@ def replay(case):
     sp = c[9] if len(c) > 9 else 0
     c = (tuple(c[0]), c[1], c[2], tuple(c[3]), c[4], c[5], c[6], c[7], tw, sp)
     v, _, _, _ = evaluate(c)
-    return [{"sig": s + ("/two-rows" if tw else "") + ("/extra-blanks-between-code-words" if sp else ""), "detail": d} for s, d in (v or [])]
+    return [{"sig": s + ("/two-rows" if tw else "") + (("/crlf-line-ends" if sp == 3 else "/extra-blanks-between-code-words") if sp else ""), "detail": d} for s, d in (v or [])]
